@@ -330,7 +330,8 @@ func main() {
 	mc.Main("C19", func(r *mc.Registry) {
 		r.Rule = "scenario = (initial content, one operation list per thread); every interleaving of the threads at each atomic.Value Load/Store, Mutex Lock/Unlock and inside each user function; non-trivial = the scheduler switched between threads that had both started; distinct = distinct (history with results, final content)"
 		r.Assumptions = []string{
-			"atomic.Value and sync.Mutex operations are the only inter-thread communication; the overlay shims preserve their semantics (sequentially consistent, non-reentrant mutex)",
+			"scheduling points: every atomic.Value and sync.Mutex operation (overlay shims: sequentially consistent, non-reentrant mutex) and every element read of a range over a Go map, every m[k]=v and delete(m,k) in packages fp and mutable (vinstr -mappoints; map iteration order is canonical, sorted by key), so an in-place write to a published snapshot is interleaved with the readers' loops",
+			"plain (unsynchronised) accesses other than those map operations are not scheduling points; data races on them are outside this check",
 			"user functions (remap, f, pred) are pure and thread-tagged, so extra or discarded evaluations are unobservable (the property does not forbid them)",
 			"sequential specification as in DESIGN.md appendix A.3",
 		}
